@@ -6,7 +6,7 @@
 From Coq Require Import String.
 From Coq Require Import List NArith Bool.
 From HS Require Import Base.Prelude Model.Value Model.Escape Model.Version Model.Json Model.ZincDump Model.ZincParse.
-From HS Require Import Proofs.EscapeP Proofs.ZincParseP Proofs.ZincDumpP Proofs.ZincNumP Proofs.ZincDateP Proofs.ZincListP Proofs.ZincGridP Proofs.ZincDictP Proofs.ZincMetaP Proofs.ZincLeavesP Proofs.ZincDocP Proofs.ZincNestP Proofs.ZincCoordP Proofs.ZincXStrP Proofs.ZincDateTimeP Proofs.ZincMultiP.
+From HS Require Import Proofs.EscapeP Proofs.ZincParseP Proofs.ZincDumpP Proofs.ZincNumP Proofs.ZincDateP Proofs.ZincListP Proofs.ZincGridP Proofs.ZincDictP Proofs.ZincMetaP Proofs.ZincLeavesP Proofs.ZincDocP Proofs.ZincNestP Proofs.ZincCoordP Proofs.ZincXStrP Proofs.ZincDateTimeP Proofs.ZincMultiP Proofs.ZincV2P.
 Import ListNotations.
 Open Scope N_scope.
 
@@ -232,6 +232,44 @@ Theorem C01_document : forall s g, s <> [] -> (last s 0 =? 10) = false -> no_adj
   zparse_grid (s ++ [10]) = Ok g -> zparse_doc (s ++ [10]) = Ok [g].
 Proof. exact doc_single. Qed.
 
+(* VERSION 2.0: for every non-empty list of distinct column names and any number of rows whose cells are 2.0 values
+   (cell2: strings, URIs, numbers / quantities, dates, times, null, marker, Remove, booleans, plain references - not a
+   3.0-only kind), the text written under the pre-3.0 rules is read back by parse_grid - the 2.0 scalar alternation and
+   the reader's version gate included - as exactly that grid. *)
+Theorem C01_grid_2_0 : forall names rows rts,
+  names <> [] -> Forall colname names -> NoDup names -> Forall2 (grid2_cells_ok names) rows rts ->
+  (forall f, zdump_grid (S (S f)) V20 [] (map (fun x => (x, [])) names) (map (fun cells => combine names cells) rows) = Ok (plain_text2 names rts)) /\
+  zparse_grid (plain_text2 names rts) = Ok (plain_grid2 names rows).
+Proof. exact grid2_roundtrip. Qed.
+Theorem C01_leaves_2_0 :
+  (forall s e, escape_str s = Ok e -> cell2 (VStr s) (DQ :: e ++ [DQ])) /\
+  (forall s e, escape_uri s = Ok e -> cell2 (VUri s) (BQ :: e ++ [BQ])) /\
+  (forall sg ip fp ex u, ntok_ok sg ip fp ex u -> cell2 (nval sg ip fp ex u) (mant sg ip fp ex ++ upt u)) /\
+  (forall y m d, valid_date y m d = true -> cell2 (VDate y m d) (iso_date y m d)) /\
+  (forall h mi s us, time_ok h mi s us -> cell2 (VTime h mi s us) (iso_time h mi s us)) /\
+  cell2 VNull [78] /\ cell2 VMarker [77] /\ cell2 VRemove [82] /\ (forall b, cell2 (VBool b) [if b then 84 else 70]) /\
+  (forall name, Forall (fun c => is_zref_char c = true) name -> cell2 (VRef name None) (64 :: name)).
+Proof.
+  exact (conj cell2_str (conj cell2_uri (conj cell2_number (conj cell2_date (conj cell2_time (conj cell2_null (conj cell2_marker
+         (conj cell2_remove (conj cell2_bool cell2_ref))))))))).
+Qed.
+Example C01_grid_2_0_nonvacuous :
+  zparse_grid (s_ "ver:""2.0""
+a,b
+""x"",N
+T,@r
+") = Ok (plain_grid2 [s_ "a"; s_ "b"] [[VStr (s_ "x"); VNull]; [VBool true; VRef (s_ "r") None]]).
+Proof.
+  destruct (C01_grid_2_0 [s_ "a"; s_ "b"] [[VStr (s_ "x"); VNull]; [VBool true; VRef (s_ "r") None]] [[s_ """x"""; s_ "N"]; [s_ "T"; s_ "@r"]]) as [_ T].
+  - discriminate.
+  - repeat constructor.
+  - repeat constructor; vm_compute; intuition discriminate.
+  - constructor; [|constructor; [|constructor]]; (split; [reflexivity|]).
+    + constructor; [apply (cell2_str (s_ "x") (s_ "x")); reflexivity|]. constructor; [exact cell2_null|constructor].
+    + constructor; [exact (cell2_bool true)|]. constructor; [apply cell2_ref; repeat constructor|constructor].
+  - exact T.
+Qed.
+
 (* SEVERAL GRIDS IN ONE DOCUMENT: the writer joins the grid texts with a line feed, so that an empty line separates them;
    parser.parse cuts the text there again and reads the grids in order.  For grid texts that are non-empty lines ended by
    one line feed each (body_ok), not starting with a blank: if each grid is written as its text and each text is read as
@@ -425,6 +463,8 @@ Print Assumptions C01_full_grid.
 Print Assumptions C01_value_relation.
 Print Assumptions C01_grid_with_metadata.
 Print Assumptions C01_datetime.
+Print Assumptions C01_grid_2_0.
+Print Assumptions C01_leaves_2_0.
 Print Assumptions C01_multi_grid.
 Print Assumptions C01_document.
 Print Assumptions C01_more_leaves.
